@@ -185,6 +185,11 @@ pub enum Event<E: Effect> {
         results: ProcessResultsMap,
     },
 
+    /// A process has terminated: it finished (a persistent process that finished successfully is
+    /// only sleeping and is not reported) or failed. Sent once, before any `ProcessResults` that
+    /// carries its result, whether or not anybody awaits the process.
+    ProcessExited { process_id: ProcessId },
+
     /// Response to GetResult (only sent when process completes)
     ResultResponse {
         request_id: u64,
